@@ -72,7 +72,7 @@ def run(chk):
         return res
 
     # ---------------- R1
-    for m, sl in ((1, None), (3, None), (3, slice(1, 2)), (3, slice(0, 2))) + (((3, 2), (2, slice(1, 2))) if thorough else ()):
+    for m, sl in ((1, None), (3, None), (3, slice(1, 2)), (3, slice(0, 2)), (3, -1)) + (((3, 2), (3, 0), (2, slice(1, 2))) if thorough else ()):
         for bare in (False, True):
             cfg = {"outputs": m, "output_slice": str(sl), "bare_nn_params": bare}
 
